@@ -12,6 +12,8 @@ import (
 	"strconv"
 	"strings"
 
+	"golang.org/x/tools/go/ssa"
+
 	"mhubsa/ana"
 	"mhubsa/load"
 	"mhubsa/report"
@@ -111,8 +113,20 @@ func run(r *report.Report, f rules.PropertyFunc, tier, mutantSpec string) (code 
 		ne += len(es)
 	}
 	r.Analysed["callgraph_edges_module"] = ne
-	c := &rules.Ctx{R: r, P: p, Tier: tier, Overlay: overlay}
-	f(c)
+	c := &rules.Ctx{R: r, P: p, Tier: tier, Overlay: overlay, Fold: &rules.FoldSet{M: map[*ssa.Function]bool{}}}
+	// a check may find that a function it cannot classify is a private helper of one caller; it then
+	// registers the helper and the check is run again with the helper folded into that caller
+	for pass := 0; ; pass++ {
+		c.Fold.Changed = false
+		f(c)
+		if !c.Fold.Changed || pass >= 3 {
+			break
+		}
+		r.Reset()
+	}
+	if n := len(c.Fold.M); n > 0 {
+		r.Analysed["helpers_folded"] = n
+	}
 	if tier == "thorough" && mutantSpec == "" {
 		rules.RunSensitivity(c)
 	}
@@ -134,6 +148,22 @@ func doDebug(what string) int {
 			}
 			for _, op := range p.BankOps(fn) {
 				fmt.Printf("%-60s BANK %-16s @%s\n", ana.FuncName(fn), op.Op, p.InstrPos(op.Site))
+			}
+		}
+	case what == "single":
+		c := &rules.Ctx{P: p, R: report.New(os.TempDir(), "dbg", "quick", 0)}
+		for _, fn := range p.Funcs {
+			if fn.Parent() != nil || p.L.IsGenerated(fn.Pos()) {
+				continue
+			}
+			callers := map[string]int{}
+			for _, e := range p.In[fn] {
+				callers[ana.FuncName(ana.Outermost(e.Caller))]++
+			}
+			if len(callers) == 1 {
+				for k, n := range callers {
+					fmt.Printf("%-60s <- %s x%d  effects=%d\n", ana.FuncName(fn), k, n, len(c.Effects(fn)))
+				}
 			}
 		}
 	case what == "roots":
